@@ -2,7 +2,7 @@ SPECIFICATION Spec
 CONSTANTS
   MaxStmts = 2
   MaxDecorated = 2
-  NTexts = 8
+  NTexts = 10
   Export = TRUE
 INVARIANT Inv
 CHECK_DEADLOCK FALSE
